@@ -569,7 +569,7 @@ func genConnectExchange(g *Gen, tag string, prop string) *Plan {
 				}
 				sg.add(authPkt(g, k))
 			case 2, 3:
-				wt := refsn.Pkt{Type: refsn.WILLTOPIC, TopicName: []string{"will/t", "w", "will/a/b"}[g.Intn(3)], QoS: uint8(g.Intn(3)), Retain: g.Bool(0.3), Will: true}
+				wt := refsn.Pkt{Type: refsn.WILLTOPIC, TopicName: []string{"will/t", "w", "will/a/b", "will/of/a/client/with/a/long/topic/name/0123456789"}[g.Intn(4)], QoS: uint8(g.Intn(3)), Retain: g.Bool(0.3), Will: true}
 				if g.Bool(0.1) {
 					wt.TopicName, wt.Will = "", false
 				}
@@ -578,7 +578,11 @@ func genConnectExchange(g *Gen, tag string, prop string) *Plan {
 				}
 				sg.add(wt)
 			default:
-				sg.add(refsn.Pkt{Type: refsn.WILLMSG, Data: []byte(fmt.Sprintf("willmsg%d", g.Intn(5)))})
+				wm := []byte(fmt.Sprintf("willmsg%d", g.Intn(5)))
+				if g.Bool(0.3) {
+					wm = serialPayload("willmsg", g.Intn(5), int(g.Range(10, 200))) // longer than any earlier packet of the exchange
+				}
+				sg.add(refsn.Pkt{Type: refsn.WILLMSG, Data: wm})
 			}
 		}
 		sg.gap(300, 1200)
@@ -587,6 +591,9 @@ func genConnectExchange(g *Gen, tag string, prop string) *Plan {
 	pol := PeerPolicy{Will: "ignore"}
 	if g.Bool(0.5) {
 		pol = PeerPolicy{WillTopic: "auto/will", WillMsg: []byte("autowill"), WillQoS: uint8(g.Intn(3)), WillRetain: g.Bool(0.3)}
+		if g.Bool(0.4) {
+			pol.WillTopic, pol.WillMsg = "auto/will/with/a/long/topic/name/0123456789", serialPayload("autowill", 0, int(g.Range(10, 120)))
+		}
 	}
 	if g.Bool(0.3) {
 		sg.add(refsn.Pkt{Type: refsn.PUBLISH, TIT: refsn.TITShort, TopicID: refsn.ShortID("ab"), QoS: 0, Data: []byte("after")})
